@@ -80,6 +80,7 @@ def case(spec, ctx):
     pre, cs, info = c02.run_cpp(ctx, spec, m, lines, "ekf")
     ctx.add_extra("programs_compiled", 1)
     maps = c02.raw_maps(ctx, spec, pre, m)
+    c02.check_prelude(ctx, spec, pre, m)  # named fields: Options constructors, const/non-const accessors, Config constants
     sraw = [pre["idx"][("state", i)] for i in range(n)]
 
     # predictions
